@@ -174,7 +174,7 @@ def cases(tier, seed):
                             continue
                         out.append({'shape': shape, 'idx': idx, 'flat': flat, 'where': where,
                                     'units': u, 'ctx': 'runonce', 'palette': pal, 'sscale': ss})
-    for k in range(6):
+    for k in range(18):
         out.append({'discrete': k})
     return out
 
@@ -303,6 +303,13 @@ def _discrete(k):
 
     p = om.Problem(reports=None)
     how = k % 3
+    # solver context of the group that owns the connection: none, block Gauss-Seidel (one
+    # transfer per subsystem), block Jacobi (one full transfer per iteration)
+    nl = ('none', 'nlbgs', 'nlbj')[(k // 3) % 3]
+    if nl == 'nlbgs':
+        p.model.nonlinear_solver = om.NonlinearBlockGS(iprint=-1, maxiter=4)
+    elif nl == 'nlbj':
+        p.model.nonlinear_solver = om.NonlinearBlockJac(iprint=-1, maxiter=4)
     if how == 0:
         p.model.add_subsystem('s', DSrc())
         p.model.add_subsystem('t', DTgt())
@@ -325,12 +332,12 @@ def _discrete(k):
         p.setup()
         p.run_model()
     except Exception as exc:
-        return 'violation', 0, [{'sig': 'C04:discrete_raises:%d' % how, 'case': case,
+        return 'violation', 0, [{'sig': 'C04:discrete_raises:%d:%s' % (how, nl), 'case': case,
                                  'msg': 'discrete model %d raised %s: %s' % (how, type(exc).__name__,
                                                                              str(exc)[:200])}]
     want = {'k': k, 'payload': [k, k + 1], 'run': True}
     if not seen or seen[-1] != want:
-        vio.append({'sig': 'C04:discrete_value:%d' % how, 'case': case,
+        vio.append({'sig': 'C04:discrete_value:%d:%s' % (how, nl), 'case': case,
                     'msg': 'discrete input saw %r expected %r' % (seen[-1:] or None, want)})
     return ('violation' if vio else 'ok_discrete'), 1, vio
 
